@@ -18,6 +18,8 @@ RULE = ('three streams. EUI-64: 48-bit MACs (all single-bit, all-but-one-bit, by
         'bracket/colon/port-text mutations; non-trivial = the address is non-empty. URLs: scheme x netloc (userinfo, '
         'IPv6 literal, port) x path x query (repeated names) x fragment x allow_fragments x default scheme, plus '
         'random strings over the delimiter alphabet; non-trivial = at least one of query/fragment/netloc present. '
+        'Call sequences: params() calls on reused / fresh / same-query result objects interleaved with 13 kinds of '
+        'mutation of earlier results; non-trivial = at least one mutation and two calls. '
         'Distinct by the canonical input tuple.')
 TRUSTED_BASE = [
     'Lean 4 kernel; axioms audited per theorem (subset of propext, Classical.choice, Quot.sound)',
@@ -589,14 +591,18 @@ def five(r):
 
 
 def show_params(d):
+    """canonical text of a params() result, insertion order kept; anything that is not a str / list of
+    str (only possible when a result was tampered with) is shown by its repr so that it cannot match"""
+    def hx(x):
+        return hexs(x) if isinstance(x, str) and valid_text(x) else 'R' + repr(x).encode('utf-8', 'replace').hex()
     if not d:
         return '-'
     parts = []
     for k, v in d.items():
         if isinstance(v, list):
-            parts.append('%s:m:%s' % (hexs(k), '|'.join(hexs(x) for x in v)))
+            parts.append('%s:m:%s' % (hx(k), '|'.join(hx(x) for x in v)))
         else:
-            parts.append('%s:o:%s' % (hexs(k), hexs(v)))
+            parts.append('%s:o:%s' % (hx(k), hx(v)))
     return ','.join(parts)
 
 
@@ -669,11 +675,291 @@ def corr_url(ctx, out):
             out.append(Disagreement(c, impl, rep))
 
 
+# --------------------------------------------------------------------------
+# call sequences: every function of the group is stateless, so a result must not depend on what callers
+# did with earlier results.  A sequence interleaves calls (on a reused result object, on a fresh urlsplit of
+# the same URL, on another URL with the same query) with mutations of previously returned containers.
+
+SEQ_QUERIES = ['a=1&a=2&b=3&a=4', 'token=s3cr3t&x=1', 'a=1', 'k=v&k=w', 'a=&b', 'x=1&y=2&z=3&x=4&y=5', 'é=1&é=2',
+               'a=1;b=2&a=3', '=x&=y', 'q=%26&q=+x&r=1']
+SEQ_SHAPES = ['http://h/p?%s', 'https://other:8443/x/y?%s#frag', '//h?%s', '?%s', 'rabbit://u:p@[::1]:5672/v?%s']
+MUT_OPS = ['clear', 'popfirst', 'poplast', 'set-existing', 'set-new', 'append', 'list-reverse', 'list-clear',
+           'list-setitem', 'update', 'setdefault', 'del-all-but-one', 'value-to-list']
+_nonce = [0]
+
+
+def gen_seq(rng, long=False):
+    qs = rng.sample(SEQ_QUERIES, 2)
+    urls = []
+    for q in qs:
+        for sh in rng.sample(SEQ_SHAPES, 2):
+            urls.append(sh % q)
+    if rng.random() < 0.3:
+        urls.append(rng.choice(['http://h/p', 'http://h/p?', '//h#f']))       # empty query: the `{}` branch
+    steps = []
+    for _ in range(rng.randrange(3, 25 if long else 10)):
+        if not steps or rng.random() < 0.55:
+            steps.append(['call', rng.randrange(len(urls)), rng.random() < 0.5, rng.random() < 0.4])
+        else:
+            steps.append(['mut', rng.randrange(8), rng.choice(MUT_OPS)])
+    steps.append(['call', rng.randrange(len(urls)), steps[0][2] if steps[0][0] == 'call' else True, False])
+    return {'kind': 'params-seq', 'urls': urls, 'steps': steps}
+
+
+def with_nonce(u, nonce):
+    """Append a parameter that makes the query string unique to this evaluation (the search shares one
+    interpreter with thousands of other cases; a replay runs the literal URLs in a fresh interpreter)."""
+    if not nonce:
+        return u
+    head, sep, frag = u.partition('#')
+    if '?' not in head or head.endswith('?'):
+        return u
+    return head + '&zz%s=1' % nonce + sep + frag
+
+
+def apply_mutation(d, op):
+    """what a consumer may do with "its" dictionary"""
+    keys = list(d)
+    lists = [k for k in keys if isinstance(d[k], list)]
+    if op == 'clear':
+        d.clear()
+    elif op == 'popfirst' and keys:
+        d.pop(keys[0])
+    elif op == 'poplast' and keys:
+        d.popitem()
+    elif op == 'set-existing' and keys:
+        d[keys[0]] = 'CHANGED'
+    elif op == 'set-new':
+        d['injected'] = 'yes'
+    elif op == 'append' and lists:
+        d[lists[0]].append('EXTRA')
+    elif op == 'list-reverse' and lists:
+        d[lists[0]].reverse()
+    elif op == 'list-clear' and lists:
+        del d[lists[0]][:]
+    elif op == 'list-setitem' and lists:
+        d[lists[0]][0] = 'CHANGED'
+    elif op == 'update':
+        d.update({'u1': '1', 'u2': ['2']})
+    elif op == 'setdefault':
+        d.setdefault('sd', []).append('x')
+    elif op == 'del-all-but-one':
+        for k in keys[1:]:
+            del d[k]
+    elif op == 'value-to-list' and keys:
+        d[keys[-1]] = [d[keys[-1]], 'more']
+
+
+def run_seq(case, nonce=''):
+    """Runs the sequence on the implementation.  Returns the per-call records
+    (url, query, collapse, snapshot-at-call-time as text, identity problems)."""
+    import copy
+    n = _n()
+    urls = [with_nonce(u, nonce) for u in case['urls']]
+    objs = {}
+    results = []            # every returned dict, kept alive so that ids stay distinct
+    seen_ids = {}           # id(mutable) -> call number that returned it
+    keep = []
+    records = []
+    for st in case['steps']:
+        if st[0] == 'call':
+            _, ui, collapse, reuse = st
+            ui %= len(urls)
+            if reuse and ui in objs:
+                r = objs[ui]
+            else:
+                r = n.urlsplit(urls[ui])
+                objs[ui] = r
+            try:
+                d = r.params(collapse=collapse)
+            except Exception as e:
+                records.append({'url': urls[ui], 'query': r.query, 'collapse': collapse, 'got': exc_name(e),
+                                'snapshot': None, 'shared': None})
+                continue
+            snap = copy.deepcopy(d) if isinstance(d, dict) else d
+            shared = None
+            if isinstance(d, dict):
+                for obj, what in [(d, 'dict')] + [(v, 'list for %r' % k) for k, v in d.items() if isinstance(v, list)]:
+                    if id(obj) in seen_ids:
+                        shared = 'call #%d returned the very same %s object as call #%d' % (
+                            len(records), what, seen_ids[id(obj)])
+                        break
+                for obj in [d] + [v for v in d.values() if isinstance(v, list)]:
+                    seen_ids.setdefault(id(obj), len(records))
+                    keep.append(obj)            # alive until the end, so that an id is never reused
+            results.append(d)
+            records.append({'url': urls[ui], 'query': r.query, 'collapse': collapse,
+                            'got': show_params(snap) if isinstance(snap, dict) else repr(snap),
+                            'snapshot': snap, 'shared': shared})
+        elif results:
+            d = results[-1 - (st[1] % len(results))]
+            if isinstance(d, dict):
+                try:
+                    apply_mutation(d, st[2])
+                except Exception:
+                    pass
+    return records
+
+
+def oracle_seq(case, nonce=''):
+    """first wrong value (the property's own clause) if any, else the first shared mutable object"""
+    return judge_seq(run_seq(case, nonce))
+
+
+def judge_seq(recs):
+    for i, rec in enumerate(recs):
+        if rec['snapshot'] is None:
+            return 'call #%d params(collapse=%s) on %r raised %s' % (i, rec['collapse'], rec['url'], rec['got'])
+        want = spec_params(parse.parse_qsl(rec['query']), rec['collapse']) if rec['query'] else {}
+        got = rec['snapshot']
+        if not isinstance(got, dict) or got != want or list(got) != list(want):
+            return 'call #%d: params(collapse=%s) on %r = %r, expected %r' % (i, rec['collapse'], rec['url'], got, want)
+    for rec in recs:
+        if rec['shared']:
+            return 'shared object: ' + rec['shared'] + ' (%r): results of different calls share a mutable object' % rec['url']
+    return None
+
+
+def oracle_obj_seq(case):
+    """get_ipv6_addr_by_EUI64 / get_mac_addr_by_ipv6 return mutable netaddr objects: a caller changing one
+    must not change what the next call returns."""
+    import netaddr
+    n = _n()
+    p, mv = case['prefix'], case['mac_int']
+    m = mac_render(mv, 'colon')
+    want = int(ipaddress.IPv6Network(p, strict=False).network_address) | int.from_bytes(iid_bytes(mv), 'big')
+    a1 = n.get_ipv6_addr_by_EUI64(p, m)
+    a1.value = 5
+    a2 = n.get_ipv6_addr_by_EUI64(p, m)
+    if a2 is a1 or int(a2) != want:
+        return 'second get_ipv6_addr_by_EUI64(%r, %r) = %s after the first result was modified, expected %s' % (
+            p, m, a2, ipaddress.IPv6Address(want))
+    e1 = n.get_mac_addr_by_ipv6(a2)
+    e1.value = 0
+    e1.dialect = netaddr.mac_cisco
+    e2 = n.get_mac_addr_by_ipv6(a2)
+    if e2 is e1 or int(e2) != mv or e2.dialect is not netaddr.mac_unix_expanded:
+        return 'second get_mac_addr_by_ipv6(%s) = %s (%s) after the first result was modified, MAC was %012x' % (
+            a2, e2, e2.dialect.__name__, mv)
+    t1 = n.parse_host_port('[::1]:80')
+    u1 = n.urlsplit('http://h/p?a=1')
+    if not isinstance(t1, tuple) or not isinstance(u1, tuple):
+        return 'parse_host_port / urlsplit no longer return (immutable) tuples: %r %r' % (type(t1), type(u1))
+    return None
+
+
+def next_nonce():
+    _nonce[0] += 1
+    return 'n%d' % _nonce[0]
+
+
+def fresh_oracle(case, budget=20):
+    """Evaluate the property oracle on `case` in a fresh interpreter (no state left by earlier cases).
+    Returns the failure text, None when the case passes, or 'unknown' on timeout / trouble."""
+    import json
+    import subprocess
+    import sys
+    import tempfile
+    import shutil
+    code = ('import sys, json; sys.path.insert(0, %r); sys.path.insert(0, %r); import common; '
+            'from props import C15; print("RESULT " + json.dumps(C15.run_oracle(json.loads(sys.argv[1]))))'
+            % (common.REPO, common.VERIF + '/harness'))
+    pc = tempfile.mkdtemp(prefix='verif-pyc.')
+    try:
+        p = subprocess.run([sys.executable, '-X', 'pycache_prefix=' + pc, '-c', code, json.dumps(case)],
+                           stdout=subprocess.PIPE, stderr=subprocess.PIPE, timeout=budget)
+        for line in p.stdout.decode('utf-8', 'replace').splitlines():
+            if line.startswith('RESULT '):
+                return json.loads(line[7:])
+    except Exception:
+        pass
+    finally:
+        shutil.rmtree(pc, ignore_errors=True)
+    return 'unknown'
+
+
+def shrink_seq(case, t_end):
+    """Fewer steps / URLs; every evaluation uses fresh query strings, the final answer is confirmed in a
+    fresh interpreter (falls back to the unshrunk case if the small one does not reproduce there)."""
+    import time
+
+    def klass(why):
+        return None if why is None else ('shared' if why.startswith('shared object') else 'value')
+    k0 = klass(oracle_seq(case, next_nonce()))
+
+    def still(steps):
+        if time.time() > t_end:
+            return False
+        return klass(oracle_seq(dict(case, steps=steps), next_nonce())) == k0
+    small = dict(case, steps=common.shrink_list(case['steps'], still, max_steps=120))
+    used = sorted({st[1] % len(case['urls']) for st in small['steps'] if st[0] == 'call'})
+    remap = {u: i for i, u in enumerate(used)}
+    cand = dict(small, urls=[case['urls'][u] for u in used],
+                steps=[[st[0], remap[st[1] % len(case['urls'])]] + st[2:] if st[0] == 'call' else st
+                       for st in small['steps']])
+    if klass(oracle_seq(cand, next_nonce())) == k0:
+        small = cand
+    why = fresh_oracle(small)
+    if why and why != 'unknown':
+        return small, why
+    why = fresh_oracle(case)
+    if why and why != 'unknown':
+        # the state is not keyed on the query (the in-process shrink went too far): shrink again, each
+        # candidate in its own interpreter, within a wall-clock budget
+        t_fresh_end = min(t_end, time.time() + 45)
+
+        def still_fresh(steps):
+            if time.time() > t_fresh_end:
+                return False
+            w = fresh_oracle(dict(case, steps=steps), budget=10)
+            return bool(w) and w != 'unknown' and klass(w) == klass(why)
+        steps = common.shrink_list(case['steps'], still_fresh, max_steps=60)
+        c2 = dict(case, steps=steps)
+        w2 = fresh_oracle(c2)
+        if w2 and w2 != 'unknown':
+            return c2, w2
+        return case, why
+    return small, oracle_seq(small, next_nonce()) or 'fails only after earlier calls in the same interpreter'
+
+
+def corr_seq(ctx, out):
+    rng = ctx.rng
+    cases = [gen_seq(rng, long=(i % 5 == 0)) for i in range(250 if ctx.quick else 5000)]
+    lines, meta = [], []
+    for case in cases:
+        nonce = next_nonce()
+        recs = run_seq(case, nonce)
+        for i, rec in enumerate(recs):
+            if rec['snapshot'] is None or not isinstance(rec['snapshot'], dict):
+                out.append(Disagreement(case, rec['got'], 'a dict', where='correspondence (call #%d)' % i))
+                continue
+            try:
+                qsl = parse.parse_qsl(rec['query'])
+            except Exception:
+                continue
+            pairs = ','.join('%s=%s' % (hexs(k), hexs(v)) for k, v in qsl) or '-'
+            lines.append(req('params', hexs(rec['query']), 1 if rec['collapse'] else 0, pairs))
+            meta.append((case, i, rec))
+        nmut = sum(1 for st in case['steps'] if st[0] == 'mut')
+        ctx.count('corr/params-seq/%s' % ('with-mutation' if nmut else 'calls-only'))
+        if nmut and len(recs) >= 2:
+            ctx.nontrivial(('params-seq', repr(case['urls']), repr(case['steps'])))
+    bad = set()
+    for (case, i, rec), rep in zip(meta, ctx.driver.ask_many(lines)):
+        ctx.evaluations += 1
+        ctx.count('corr/params-seq/call/%s' % ('collapse' if rec['collapse'] else 'all'))
+        if rec['got'] != rep and id(case) not in bad:
+            bad.add(id(case))
+            out.append(Disagreement(case, 'call #%d on %r: %s' % (i, rec['url'], rec['got']), rep))
+    ctx.sample({'urls': cases[0]['urls'], 'steps': cases[0]['steps']}, 8)
+
+
 def correspondence(ctx):
     out = []
     corr_eui(ctx, out)
     corr_hostport(ctx, out)
     corr_url(ctx, out)
+    corr_seq(ctx, out)      # last: see search()
     return out
 
 
@@ -867,6 +1153,10 @@ def run_oracle(case):
         return oracle_hostport(case['host'], case['port'], case['default'])
     if k in ('url', 'params'):
         return oracle_url(case['url'], case['scheme'], case['allow_fragments'])
+    if k == 'params-seq':
+        return oracle_seq(case)
+    if k == 'obj-seq':
+        return oracle_obj_seq(case)
     if k == 'hostport-raw':
         try:
             got = _n().parse_host_port(case['host'], default_port=case['default'])
@@ -884,13 +1174,39 @@ def search(ctx, seeds, full=False):
     fails = []
     kinds = set()
 
+    import time
+    t_shrink_end = time.time() + 90
+    leaky_kinds = set()
+    leaked = []        # cases that fail here but pass in a fresh interpreter: state left by earlier calls
+
     def check(case):
         ctx.evaluations += 1
+        if case['kind'] == 'params-seq':
+            why = oracle_seq(case, next_nonce())
+            if why and case['kind'] not in kinds and len(fails) < 6:
+                kinds.add(case['kind'])
+                small, what = shrink_seq(case, t_shrink_end)
+                fails.append(Failure(small, {'kind': 'params-seq', 'what': what}))
+            return why
         why = run_oracle(case)
+        if why and case['kind'] in leaky_kinds:
+            ctx.count('search/failed-only-after-earlier-calls')
+            return why
         if why and case['kind'] not in kinds and len(fails) < 6:
+            small = shrink(case)
+            # a replay must stand on its own: confirm in a fresh interpreter (once per kind)
+            if case['kind'] != 'obj-seq':
+                fresh = fresh_oracle(small)
+                if fresh is None:
+                    fresh = fresh_oracle(case)
+                    small = case
+                if fresh is None:
+                    ctx.count('search/failed-only-after-earlier-calls')
+                    leaked.append((case, why))
+                    leaky_kinds.add(case['kind'])
+                    return why
             kinds.add(case['kind'])
-            case = shrink(case)
-            fails.append(Failure(case, {'kind': case['kind'], 'what': run_oracle(case)}))
+            fails.append(Failure(small, {'kind': case['kind'], 'what': run_oracle(small) or why}))
         return why
 
     for s in seeds[:300]:
@@ -960,6 +1276,23 @@ def search(ctx, seeds, full=False):
     for (u, sch, af, tag) in url_cases(ctx) if (full or not ctx.quick) else itertools.islice(url_cases(ctx), 2000):
         ctx.count('search/url/' + tag)
         check({'kind': 'url', 'url': u, 'scheme': sch, 'allow_fragments': af})
+    # --- call sequences last: on a stateful implementation they leave state behind, which must not leak
+    #     into the single-call cases above (their replays have to reproduce on their own) ---
+    for s in seeds[:300]:
+        if s.get('kind') == 'params-seq':
+            check(dict(s))
+    for i in range((300 if ctx.quick else 4000) * (3 if full else 1)):
+        ctx.count('search/params-seq')
+        check(gen_seq(rng, long=(i % 4 == 0)))
+    for pt, mv in [('2001:db8::/64', 0x00163e334455), ('fe80::/10', 0xffffffffffff), ('::/0', 0)]:
+        ctx.count('search/obj-seq')
+        check({'kind': 'obj-seq', 'prefix': pt, 'mac_int': mv})
+
+    if leaked and not any(f.case.get('kind') in ('params-seq', 'obj-seq') for f in fails):
+        # state-dependence was seen but no sequence pinned it down: report it rather than drop it
+        case, why = leaked[0]
+        fails.append(Failure(case, {'kind': 'state-dependent', 'what': why + ' -- only after earlier calls in the same '
+                                    'interpreter (passes in a fresh one): some result depends on call history'}))
     return fails
 
 
@@ -1106,6 +1439,23 @@ def replay(ctx, payload):
         e = n.escape_ipv6(case['host'])
         a = e if case['port'] is None else e + ':' + str(case['port'])
         print('implementation: parse_host_port(%r, default_port=%r) -> %s' % (a, case['default'], pretty(impl_php(a, case['default']))))
+    elif k == 'params-seq':
+        recs = run_seq(case)                 # one run only: a second one would see what the first left behind
+        calls = iter(recs)
+        done = 0
+        for st in case['steps']:
+            if st[0] == 'call':
+                rec = next(calls)
+                done += 1
+                want = spec_params(parse.parse_qsl(rec['query']), rec['collapse']) if rec['query'] else {}
+                print('  #%d urlsplit(%r)%s.params(collapse=%s) -> %r   [last/all values of the query: %r]%s' % (
+                    done - 1, rec['url'], ' (same result object as before)' if st[3] else '', rec['collapse'],
+                    rec['snapshot'], want, '   !! ' + rec['shared'] if rec['shared'] else ''))
+            elif done:
+                print('  caller modifies the dict returned by call #%d: %s' % (done - 1 - st[1] % done, st[2]))
+        why = judge_seq(recs)
+        print('property oracle on the implementation:', why)
+        return 1 if why else 0
     elif k in ('url', 'params'):
         for name, f in (('netutils.urlsplit', n.urlsplit), ('urllib.parse.urlsplit', parse.urlsplit)):
             try:
